@@ -97,10 +97,12 @@ def import_harmless(pids):
     """behaviour-preserving rewrites from /tmp/wt-out3/<id>/R*.diff: apply, build (with and without the
     verif tag), run the existing tests; kept under /verif/harmless/<id>-R<n>/"""
     for pid in pids:
-        wt, out = "/tmp/wt/" + pid, "/tmp/wt-out3/" + pid
+        wt, out = "/tmp/wt/" + pid, os.environ.get("HARMLESS_OUT", "/tmp/wt-out3") + "/" + pid
         meta = json.load(open(os.path.join(out, "meta.json")))
         by = {c["name"]: c for c in meta.get("changes", [])}
         for name in ("R1", "R2", "R3"):
+            store = os.environ.get("HARMLESS_RENAME", "").split(",")
+            sname = dict(zip(("R1", "R2", "R3"), store)).get(name, name) if len(store) == 3 else name
             diff = os.path.join(out, name + ".diff")
             if not os.path.exists(diff):
                 continue
@@ -124,7 +126,7 @@ def import_harmless(pids):
             print("%s-%s build=%s verif-build=%s tests=%s -> %s" % (pid, name, rc_b, rc_v, rc_t, "CONFIRMED" if ok else "NOT CONFIRMED"))
             if not ok:
                 continue
-            dst = os.path.join(ROOT, "harmless", "%s-%s" % (pid, name))
+            dst = os.path.join(ROOT, "harmless", "%s-%s" % (pid, sname))
             if os.path.exists(dst):
                 shutil.rmtree(dst)
             os.makedirs(dst)
